@@ -91,6 +91,19 @@ def _def_block(f, l):
     return hits[0] if len(hits) == 1 else None
 
 
+def _follow_moves(f, l, depth=0):
+    """l, or the local it was moved from when its only definition is `l = move m`."""
+    if l is None or depth > 4:
+        return l
+    defs = [st for b in f["blocks"] for st in b["st"] if st["k"] == "A" and st["p"][0] == l]
+    calls = [b for b in f["blocks"] if b["term"]["k"] == "call" and b["term"]["dest"][0] == l]
+    if len(defs) == 1 and not calls and not defs[0]["p"][1] and defs[0]["r"]["k"] == "use":
+        m = _plain_local(defs[0]["r"]["o"])
+        if m is not None and "m" in defs[0]["r"]["o"]:
+            return _follow_moves(f, m, depth + 1)
+    return l
+
+
 def _plain_local(op):
     p = op.get("m") or op.get("c")
     if p is None or p[1]:
@@ -333,7 +346,7 @@ def find_chains(d, f, fn_by_path, children):
         op = t["args"][1] if name == "extend" else t["args"][0]
         ok = True
         while True:
-            l = _plain_local(op)
+            l = _follow_moves(f, _plain_local(op))
             if l is None:
                 break
             db = _def_block(f, l)
@@ -393,8 +406,127 @@ def find_chains(d, f, fn_by_path, children):
     return out
 
 
+def _closure_call_block(cx, fn_by_path, cl_op, args, dest, nxt, line, pending):
+    d, f = cx.d, cx.f
+    c, cl_local = _closure_of(d, fn_by_path, f, cl_op)
+    if c is None:
+        raise ValueError("adaptor argument is not a closure")
+    CR = cx.local()
+    st = [{"k": "A", "p": [CR, []], "r": {"k": "ref", "mut": True, "p": [cl_local, []]}, "s": line}]
+    term = {"k": "call", "f": {"path": c["path"], "name": c["name"], "local": True, "krate": c.get("krate"), "substs": [], "closure": c["path"]},
+            "args": [{"m": [CR, []]}] + args, "dest": [dest, []], "t": nxt, "u": None, "s": line, "fs": line}
+    if len(term["args"]) != c["argc"]:
+        raise ValueError("closure arity")
+    bi = cx.block(st, term)
+    pending.append((bi, c))
+    return bi
+
+
+def desugar_loop_source(cx, fn_by_path, ib, stages, nb, line):
+    """`for x in src.filter(p).map(f) { .. }`: iterate `src` and run the stages at the top of the body.
+    ib: block of the into_iter call; stages: adaptor calls feeding it; nb: block of the loop's next() call."""
+    d, f = cx.d, cx.f
+    nxt = f["blocks"][nb]["term"]
+    NX = nxt["dest"][0]
+    sw = f["blocks"][nxt["t"]]["term"]
+    if sw["k"] != "switch" or 1 not in sw["vals"]:
+        raise ValueError("loop switch not recognised")
+    body = sw["tgts"][sw["vals"].index(1)]
+    pending = []
+    S0 = cx.block()
+    X = cx.local()
+    f["blocks"][S0]["st"] = [{"k": "A", "p": [X, []], "r": {"k": "use", "o": {"c": [NX, [["d", "Some", 1], ["f", 0, "0", "std::option::Option", "Some"]]]}}, "s": line}]
+    cur = S0
+    UNREACH = cx.block([], {"k": "unreachable"})
+    for bi, name, t in stages:
+        if name in ("cloned", "copied", "inspect"):
+            continue
+        if name == "map":
+            Y = cx.local()
+            n2 = cx.block()
+            cb = _closure_call_block(cx, fn_by_path, t["args"][1], [{"m": [X, []]}], Y, n2, line, pending)
+            f["blocks"][cur]["term"] = {"k": "goto", "t": cb}
+            cur, X = n2, Y
+        elif name == "filter":
+            XR = cx.local()
+            B = cx.local(cx.bool_ty)
+            swb = cx.block()
+            n2 = cx.block()
+            cb = _closure_call_block(cx, fn_by_path, t["args"][1], [{"m": [XR, []]}], B, swb, line, pending)
+            f["blocks"][cb]["st"].insert(0, {"k": "A", "p": [XR, []], "r": {"k": "ref", "mut": False, "p": [X, []]}, "s": line})
+            f["blocks"][swb]["term"] = {"k": "switch", "d": {"m": [B, []]}, "vals": [0], "tgts": [nb], "otherwise": n2, "s": line}
+            f["blocks"][cur]["term"] = {"k": "goto", "t": cb}
+            cur = n2
+        elif name == "filter_map":
+            O = cx.local()
+            D2 = cx.local()
+            swb = cx.block()
+            n2 = cx.block()
+            Y = cx.local()
+            cb = _closure_call_block(cx, fn_by_path, t["args"][1], [{"m": [X, []]}], O, swb, line, pending)
+            f["blocks"][swb]["st"] = [{"k": "A", "p": [D2, []], "r": {"k": "disc", "p": [O, []], "adt": "std::option::Option"}, "s": line}]
+            f["blocks"][swb]["term"] = {"k": "switch", "d": {"m": [D2, []]}, "vals": [0, 1], "tgts": [nb, n2], "otherwise": UNREACH, "s": line}
+            f["blocks"][n2]["st"] = [{"k": "A", "p": [Y, []], "r": {"k": "use", "o": {"c": [O, [["d", "Some", 1], ["f", 0, "0", "std::option::Option", "Some"]]]}}, "s": line}]
+            f["blocks"][cur]["term"] = {"k": "goto", "t": cb}
+            cur, X = n2, Y
+        else:
+            raise ValueError("unsupported adaptor " + name)
+    f["blocks"][cur]["st"].append({"k": "A", "p": [NX, []], "r": {"k": "agg", "agg": "adt", "adt": "std::option::Option", "variant": "Some", "vidx": 1, "names": ["0"], "fields": [{"m": [X, []]}]}, "s": line})
+    f["blocks"][cur]["term"] = {"k": "goto", "t": body}
+    # rewire
+    sw["tgts"][sw["vals"].index(1)] = S0
+    f["blocks"][ib]["term"]["args"][0] = stages[0][2]["args"][0]
+    for bi, name, t in stages:
+        f["blocks"][bi]["term"] = {"k": "goto", "t": t["t"]}
+    inlined = []
+    for bi, c in pending:
+        inline_call(f, bi, copy.deepcopy(c))
+        inlined.append(c["path"])
+    return inlined
+
+
+def find_loop_sources(d, f, fn_by_path):
+    out = []
+    for ib, b in enumerate(f["blocks"]):
+        t = b["term"]
+        if b["cleanup"] or b.get("loop_desugared") or t["k"] != "call" or "f" not in t or t["f"].get("name") != "into_iter" or not isinstance(t.get("s"), list) or not str(t["s"][1]).startswith("d:ForLoop"):
+            continue
+        stages = []
+        op = t["args"][0]
+        while True:
+            l = _follow_moves(f, _plain_local(op))
+            if l is None:
+                break
+            db = _def_block(f, l)
+            if db is None:
+                break
+            dt = f["blocks"][db]["term"]
+            if not _is_iter_call(dt, {"map", "filter", "filter_map", "cloned", "copied"}):
+                break
+            stages.insert(0, (db, dt["f"]["name"], dt))
+            op = dt["args"][0]
+        if not any(nm in ("map", "filter", "filter_map") for _, nm, _ in stages):
+            continue
+        if any(_closure_of(d, fn_by_path, f, tt["args"][1])[0] is None for _, nm, tt in stages if nm in ("map", "filter", "filter_map")):
+            continue
+        # the loop's next() call: borrows the variable the into_iter result is moved into
+        D = t["dest"][0]
+        iters = {st["p"][0] for bb in f["blocks"] for st in bb["st"] if st["k"] == "A" and not st["p"][1] and st["r"]["k"] == "use" and _plain_local(st["r"]["o"]) == D}
+        nbs = []
+        for bi2, b2 in enumerate(f["blocks"]):
+            t2 = b2["term"]
+            if not b2["cleanup"] and t2["k"] == "call" and "f" in t2 and t2["f"].get("name") == "next" and isinstance(t2.get("s"), list) and str(t2["s"][1]).startswith("d:ForLoop"):
+                if any(st["k"] == "A" and st["r"]["k"] == "ref" and st["r"]["p"][0] in iters and not st["r"]["p"][1] for st in b2["st"]):
+                    nbs.append(bi2)
+        if len(nbs) != 1:
+            continue
+        ln = t["s"][0]
+        out.append((ib, stages, nbs[0], ln))
+    return out
+
+
 def apply(d):
-    summary = {"chains": 0, "closures_inlined": [], "skipped": []}
+    summary = {"chains": 0, "loops": 0, "closures_inlined": [], "skipped": []}
     fn_by_path = {}
     for f in d["fns"]:
         fn_by_path.setdefault(f["path"], f)
@@ -434,6 +566,29 @@ def apply(d):
                     f["blocks"][stages[-1][0]]["inl_desugared"] = True
             if not progressed:
                 break
+    # for-loops over filter / map chains
+    for f in order:
+        if f.get("derived") or not f.get("local", True):
+            continue
+        for _ in range(6):
+            try:
+                found = find_loop_sources(d, f, fn_by_path)
+            except Exception as e:
+                summary["skipped"].append("%s: %s" % (f["path"], e))
+                break
+            if not found or len(f["blocks"]) > MAX_BLOCKS:
+                break
+            ib, stages, nb, line = found[0]
+            backup = (copy.deepcopy(f["blocks"]), copy.deepcopy(f["locals"]))
+            try:
+                inl = desugar_loop_source(_Ctx(d, f), fn_by_path, ib, stages, nb, line)
+                f.setdefault("inlined", []).extend(inl)
+                summary["loops"] += 1
+                summary["closures_inlined"].extend(inl)
+            except Exception as e:
+                f["blocks"], f["locals"] = backup
+                f["blocks"][ib]["loop_desugared"] = True
+                summary["skipped"].append("%s: %s" % (f["path"], e))
     # closures that now live inside their parent are no longer stand-alone bodies
     gone = set(summary["closures_inlined"])
     if gone:
